@@ -627,6 +627,12 @@ func vE2EOne(t *testing.T, scn *vE2EScenario, tw *vTraceWriter, hostpriv ssh.Sig
 	var notFinal []int
 	var insts int
 	for {
+		// (a hold restored from the instance tags by a new dispatcher may show up late)
+		for _, iv := range e.disp.pool.Instances() {
+			if iv.IdleBehavior != worker.IdleBehaviorRun {
+				setIB(iv.Instance, worker.IdleBehaviorRun)
+			}
+		}
 		notFinal, insts, _ = e.observe()
 		if len(notFinal) == 0 && insts == 0 {
 			break
